@@ -5,7 +5,7 @@ from migen import *
 from hypothesis import strategies as st
 from lib.runner import Collector, hyp_search, digest
 from lib.fastsim import FastSim, MigenSim, compile_dut, HarnessError
-from lib.native import NativeMaster, NativeSlave
+from lib.native import NativeMaster, NativeSlave, native_slave
 from lib.wishbone import WBMaster, WBMemSlave, CTI_INCR, CTI_END
 from lib.portcase import slave_sched
 
@@ -90,7 +90,7 @@ def _fmt(s):
 def run_w2n(cfg, stim, backend="fast"):
     dut, sim = get_sim(cfg, backend)
     sl = stim["slave"]
-    slave = NativeSlave([dut.port], ready_pattern=sl.get("ready"), wlat=sl.get("wlat"), rlat=sl.get("rlat"), qmax=sl.get("qmax", 8), apply_lost=True)
+    slave = native_slave([dut.port], sl, apply_lost=True)
     master = WBMaster(dut.wb, stim["ops"])
     ratio_dn = max(1, cfg["bus_dw"] // cfg["port_dw"])
     lat = max((sl.get("wlat") or [3]) + (sl.get("rlat") or [5])) + sum(sl.get("ready") or [0]) + 10
@@ -110,6 +110,8 @@ def run_w2n(cfg, stim, backend="fast"):
                 break
         else:
             quiet = 0
+    if hasattr(slave, "finish"):
+        slave.finish(t)
     return dict(master=master, slave=slave, cycles=t, completed=done, dut=dut, per=per)
 
 
@@ -127,6 +129,10 @@ def oracle_w2n(cfg, stim, r):
     # allowed sets below (the slave applies the data/enable wires like the real crossbar does)
     ab_ranges = [(op["adr"] * bus_b - base, op["adr"] * bus_b - base + bus_b) for k, op in enumerate(stim["ops"]) if m.result[k] and m.result[k][0] == "abort" and op["we"]]
     for e in s.lost:
+        if e[0] == "W-extra":
+            fs.append(dict(clause="C10.extra_write_beat", key="W-extra", what="stream-style native port: the bridge put more write-data beats on the port than write commands (a beat "
+                           "is left over at the end of the run; every later write is paired with the data of an earlier one)"))
+            break
         if e[0].startswith("W") and any(lo <= e[3] * port_b < hi or lo < (e[3] + 1) * port_b <= hi for lo, hi in ab_ranges):
             continue
         if e[0].startswith("R") and any(m.result[k] and m.result[k][0] == "abort" for k in range(len(stim["ops"]))):
@@ -181,6 +187,8 @@ def oracle_w2n(cfg, stim, r):
 def classify_w2n(cfg, stim):
     cl = set()
     ops = stim["ops"]
+    if stim.get("slave", {}).get("style") == "fifo":
+        cl.add("stream_style_native_port")
     wide = max(cfg["bus_dw"], cfg["port_dw"]) // 8
     bus_b = cfg["bus_dw"] // 8
     if any(op.get("abort_after") is not None for op in ops):
@@ -237,7 +245,14 @@ def w2n_stim(draw, cfg, max_acc):
                 ops.append(op)
                 break
             ops.append(op)
-    return dict(ops=ops[:max_acc + 8], slave=draw(slave_sched()))
+    sl = draw(slave_sched())
+    if cfg["bus_dw"] != cfg["port_dw"]:
+        # stream-style native ports (data accepted ahead of its command) are generated only where the repository composes the bridge with such a
+        # port: bus and port of equal width on the user side of a converter / CDC / ECC port (gen.py). The bridge's own converters are always
+        # built in front of a "sys" crossbar-style port (LiteDRAMNativePortConverter asserts equal clock domains), see DESIGN 8.2.
+        for k in ("style", "wdepth", "rdepth", "wready"):
+            sl.pop(k, None)
+    return dict(ops=ops[:max_acc + 8], slave=sl)
 
 
 # ---------------------------------------------------------------------------------------------------
